@@ -53,6 +53,7 @@ func Compile(grammar *Grammar, opts Options) (*Tables, error) {
 		c.resolveWithLookahead()
 	}
 	c.reportConflicts(opts.Verbose, opts.DebugConflicts)
+	verifPoint("conflicts", grammar, opts, c.out, c.s.Err())
 
 	if opts.Debug {
 		c.exportDebugInfo()
@@ -60,10 +61,12 @@ func Compile(grammar *Grammar, opts Options) (*Tables, error) {
 
 	if opts.MinimizeDFA {
 		minimize(c.out, grammar)
+		verifPoint("minimized", grammar, opts, c.out, c.s.Err())
 	}
 	if opts.Optimize {
 		numRules := len(c.out.RuleLen) // takes into account runtime lookahead rules
 		c.out.Optimized = Optimize(c.out.DefaultEnc, grammar.Terminals, numRules, opts.DefaultReduce)
+		verifPoint("optimized", grammar, opts, c.out, c.s.Err())
 	}
 	return c.out, c.s.Err()
 }
